@@ -327,6 +327,11 @@ func (c *decoratorController) processNextWorkItem() bool {
 }
 
 func (c *decoratorController) enqueueParentObject(obj interface{}) {
+	// A delete may be delivered as a tombstone. Its key (namespace/name) is not
+	// a parent queue key, so use the object it carries.
+	if tombstone, ok := obj.(cache.DeletedFinalStateUnknown); ok {
+		obj = tombstone.Obj
+	}
 	// If the parent doesn't match our selector, and it doesn't have our
 	// finalizer, we don't care about it.
 	if parent, ok := obj.(*unstructured.Unstructured); ok {
